@@ -22,11 +22,14 @@ def lock_name(T, bi, t):
         return str(a[1]).split("::")[-1]
     return show(a, maxd=2)
 
-from ..rules_tz import fold_agree
+from ..rules_tz import fold_agree, special_names
 
 
 def run(ctx, rep):
     fold_agree(rep, ctx.prog("Q"))
+    special_names(rep, [("Q", ctx.prog("Q")), ("T3", ctx.prog("T3"))])
+    if "T3" not in rep.configs:
+        rep.configs.append("T3")
     prog = ctx.prog("Q")
     rep.notes.append("Does not decide history/schedule independence of results or TTL timing.")
     progs = [("Q", prog)]
